@@ -256,6 +256,33 @@ def run_item(item, workdir, paths):
             return out.getvalue()
 
         res["cmd"] = {"render": _outcome(run)}
+
+        # --output-encoding: the bytes written to stdout / to --output-file
+        encs = {}
+        for enc in ("utf-8", "utf-16", "latin-1"):
+            for where in ("stdout", "file"):
+                raw = io.BytesIO()
+                wrapped = io.TextIOWrapper(raw, encoding="utf-8", write_through=True)
+                ofile = os.path.join(workdir, "cmd-out.bin")
+                if os.path.exists(ofile):
+                    os.unlink(ofile)
+                argv2 = ["--output-encoding", enc] + (["--output-file", ofile] if where == "file" else []) + argv
+
+                def run2():
+                    with contextlib.redirect_stdout(wrapped), contextlib.redirect_stderr(io.StringIO()):
+                        try:
+                            cmd.cmdline(argv2)
+                        except SystemExit as e:
+                            if e.code:
+                                raise RuntimeError("mako-render exit %s" % e.code)
+                    wrapped.flush()
+                    if where == "file":
+                        with open(ofile, "rb") as f:
+                            return f.read().hex()
+                    return raw.getvalue().hex()
+
+                encs["%s:%s" % (enc, where)] = _outcome(run2)
+        res["cmd"]["encoded"] = encs
     return res
 
 
